@@ -108,6 +108,14 @@ def concl (H : FHash → Hdr → Hdr) (r : Round) (appended : List Hdr) (banned 
 
 end Round
 
+/-- the round as the property sees it -/
+def roundOf (s : St) (net : Net) (truth : Nat → FHash) : Round :=
+  { peers := net.peers.filter (live s), resps := net.resps, served := net.served, verify := net.verify,
+    getBlock := net.getBlock, tip := (s.fstore.getLast?).getD 0, start := s.fstore.length,
+    n := batchLen s, truth := truth }
+
+def newBans (s s' : St) : List Peer := (s'.bans.drop s.bans.length).map (·.1)
+
 /-! ### oracle on consecutive dumps -/
 
 /-- (a) the filter store is not ahead of the block store and its tip is its last entry -/
@@ -125,6 +133,31 @@ def appendedObs (H : FHash → Hdr → Hdr) (old new : List Hdr) (cands : List (
   match old.getLast? with
   | none => false
   | some tip => cands.any (fun c => new == old ++ chainFrom H tip c)
+
+/-- (b) for the checkpointed fetch: what was appended is a sequence of served
+batches, each the hash chain of (a suffix of, for the first one only) the
+hashes of one delivered response for the heights it was written at, each
+started at the then-current tip -/
+def cpAppendedGo (H : FHash → Hdr → Hdr) (interval : Nat) (evs : List CpEv) :
+    Nat → List Hdr → Hdr → Nat → Bool → Bool
+  | 0, target, _, _, _ => target.isEmpty
+  | fuel + 1, target, tip, height, first =>
+    target.isEmpty ||
+    evs.any (fun e =>
+      e.stopOk && decide (e.k * interval + 1 ≤ height) &&
+      (first || height == e.k * interval + 1) &&
+      (let c := e.hashes.drop (height - (e.k * interval + 1))
+       let ch := chainFrom H tip c
+       !c.isEmpty && ch.isPrefixOf target &&
+       cpAppendedGo H interval evs fuel (target.drop ch.length) ((ch.getLast?).getD tip)
+         (height + ch.length) false))
+
+def cpAppendedObs (H : FHash → Hdr → Hdr) (interval : Nat) (evs : List CpEv) (old new : List Hdr) : Bool :=
+  if new.length ≤ old.length then true else
+  match old.getLast? with
+  | none => false
+  | some tip => old.isPrefixOf new &&
+      cpAppendedGo H interval evs (evs.length + 1) (new.drop old.length) tip old.length true
 
 /-- (b) after the chain was cut back to height `h` no entry above `h` is left -/
 def cutObs (h : Nat) (new : List Hdr) : Bool := new.length ≤ h + 1
